@@ -53,7 +53,21 @@ impl<'a> Rd<'a> {
 
     fn expected_path(&self, id: u32) -> Result<String, (String, String)> {
         match resolve_path(self.reg, self.settings, id) {
-            Ok(Ok(p)) => Ok(omit_generics(&p)),
+            Ok(Ok(p)) => {
+                let p = omit_generics(&p);
+                // "the generated path": where the item really is in the emitted module, not only what the
+                // generator calls it
+                if let Some(item) = self.generated_item(id) {
+                    let at = item.path.join("::");
+                    if at != p {
+                        return Err((
+                            "literal-path".into(),
+                            format!("the generator names type {id} `{p}`, the item is emitted at `{at}`"),
+                        ));
+                    }
+                }
+                Ok(p)
+            }
             other => Err((
                 "path".into(),
                 format!("resolve_type_path({id}) = {other:?}"),
